@@ -30,7 +30,9 @@ T      == Traces[tid]
 \* JSON arrays are 1-based sequences; the modules use 0-based functions
 Fn0(s) == [b \in 0..Len(s)-1 |-> s[b + 1]]
 
-VdiImg(j) == [n |-> j.n, cb |-> 1, map |-> Fn0(j.map), size |-> j.n, parent |-> j.parent]
+\* j.cb (optional): cells per block - the layers of a chain may use different block sizes over a common cell size
+VdiCb(j)  == IF "cb" \in DOMAIN j THEN j.cb ELSE 1
+VdiImg(j) == [n |-> j.n, cb |-> VdiCb(j), map |-> Fn0(j.map), size |-> j.n * VdiCb(j), parent |-> j.parent]
 VhdImg(j) == [kind |-> j.kind, n |-> j.n, cb |-> j.cb, bat |-> Fn0(j.bat), size |-> j.size, foot511 |-> j.foot511]
 
 HdsImg(j) == [kind |-> j.kind, ver |-> j.ver, n |-> j.n, cb |-> j.cb, bat |-> Fn0(j.bat), size |-> j.size, parent |-> j.parent]
@@ -55,7 +57,8 @@ QcowImg(j) == [ext |-> j.ext, datafile |-> j.datafile, l2n |-> j.nc, s |-> j.s, 
                                              sub |-> IF j.ext /\ j.t[c + 1] # "C" THEN [o \in 1..32 |-> QSub(j, c, o - 1)] ELSE <<>>]]]
 
 \* ---- chains (C07): T.chain is a sequence of layers, top first; data of layer i carries pattern file id i-1 ----
-LayerSrc(L, q) == CASE L.fmt = "vdi"   -> Vdi!CellSrc(VdiImg(L.img), q)
+LayerSrc(L, q) == CASE L.fmt = "flat"  -> Data(0, q)
+                    [] L.fmt = "vdi"   -> Vdi!CellSrc(VdiImg(L.img), q)
                     [] L.fmt = "vhdx"  -> Vhdx!CellSrc(VhdxImg(L.img), q)
                     [] L.fmt = "hds"   -> Hds!CellSrc(HdsImg(L.img), q)
                     [] L.fmt = "qcow2" -> Qcow2!CellSrc(QcowImg(L.img), q)
@@ -68,14 +71,18 @@ ChainSrc(ch, i, q) ==
             [] OTHER -> t
 
 \* ---- multi-extent disks (C10): T.exts is a sequence of extents [fmt, start, n, img], start / n in cells ----
+\* an extent may itself be a snapshot chain (fmt "chain": x.chain, top layer first); data of layer j of extent i carries
+\* token file (i-1) * T.fmul + (j-1)
 ExtIndex(q) == CHOOSE i \in 1..Len(T.exts) : T.exts[i].start <= q /\ q < T.exts[i].start + T.exts[i].n
+FMul == IF "fmul" \in DOMAIN T THEN T.fmul ELSE 1
 ExtentSrc(q) ==
   LET i == ExtIndex(q)
       x == T.exts[i]
       t == CASE x.fmt = "flat" -> Data(0, q - x.start)
              [] x.fmt = "vmdk" -> VmdkSrc(x.img, q - x.start)
              [] x.fmt = "hds"  -> Hds!CellSrc(HdsImg(x.img), q - x.start)
-  IN IF t.k = "D" THEN [t EXCEPT !.f = i - 1] ELSE t
+             [] x.fmt = "chain" -> ChainSrc(x.chain, 1, q - x.start)
+  IN IF t.k = "D" THEN [t EXCEPT !.f = (i - 1) * FMul + (IF x.fmt = "chain" THEN t.f ELSE 0)] ELSE t
 
 Ev == T.events[l]
 \* the stream object an event was recorded on (layer index, 1 = the stream that was opened)
